@@ -454,10 +454,14 @@ def check_pair(acc, pendulum, zx, ix, zy, iy):
             got = _try(fnn)
             acc.c["evaluations"] += 1
             acc.c["transitions"] += 1
-            if got != nat and not (got[0] == nat[0] == "ok" and abs(nat[1][1]) >= (1 << 33) * US
-                                   and abs(got[1][1] - nat[1][1]) <= 64):
-                # (beyond 2^33 s C05 - the more specific statement - allows 64 us of float error)
+            if got != nat:
+                # "the same value as the native object": exact at every span (C05's 64 us allowance is about the length it
+                # reports on its own, not about equality with the native difference)
                 acc.mismatch("subtract", lbl, case, got, nat)
+            elif got[0] == "ok":
+                dv, nv = fnn(), xb - yb
+                if not (dv == nv and nv == dv and not (dv != nv) and hash(dv) == hash(nv)):
+                    acc.mismatch("subtract", f"{lbl}/eq-hash-vs-native-difference", case, [dv == nv, nv == dv, hash(dv) == hash(nv)], [True, True, True])
             elif lbl == "pp" and got[0] == "ok" and not isinstance(x - y, pendulum.Interval):
                 acc.mismatch("subtract", "type", case, type(x - y).__name__, "Interval")
 
